@@ -425,7 +425,7 @@ void start(Thread* t) {
   t->joined = false;
   pthread_attr_t a;
   pthread_attr_init(&a);
-  pthread_attr_setstacksize(&a, 64u << 20);
+  pthread_attr_setstacksize(&a, 24u << 20);
   if (pthread_create(&t->th, &a, thread_main, t) != 0) {
     fprintf(stderr, "[sim] pthread_create failed\n");
     _exit(73);
